@@ -243,7 +243,7 @@ func init() {
 		if tier == "thorough" {
 			n = c09cells + 1500
 		}
-		return Plan{Runs: n, Enumerated: c09cells, Exhaustive: true, Level: "fault_enumeration", Rule: "runs 0..107 enumerate (fault kind in {db closed, read error, corrupted block, undecodable value, truncated value, store missing after failed swap, shutdown racing the lookup, value of wrong type, value altered inside the serial but still decodable}) x (listed, unlisted) x (backend) x (store level, repository level, validator level) completely (cells that do not exist for a backend are counted as skipped); further runs draw the same with random population sizes, tiny write buffers and schedules; oracle: under a fault that affects the lookup the answer is an error or 'revoked', never (not revoked, nil), and never a panic; the same lookups without the fault are exact"}
+		return Plan{Runs: n, Enumerated: c09cells, Exhaustive: true, Level: "fault_enumeration", Rule: "runs 0..119 enumerate (fault kind in {db closed, read error, corrupted block, undecodable value, truncated value, store missing after failed swap, shutdown racing the lookup, value of wrong type, value altered inside the serial but still decodable, value of length zero}) x (listed, unlisted) x (backend) x (store level, repository level, validator level) completely (cells that do not exist for a backend are counted as skipped); further runs draw the same with random population sizes, tiny write buffers and schedules; oracle: under a fault that affects the lookup the answer is an error or 'revoked', never (not revoked, nil), and never a panic; the same lookups without the fault are exact"}
 	}, Run: runC09})
 }
 
@@ -524,9 +524,9 @@ func recordOnly(h *Harness, oracle, sig, detail string) {
 
 // ------------------------------------------------------------------------------------------ C09
 
-var c09faults = []string{"db-closed", "read-error", "corrupt-block", "undecodable-value", "truncated-value", "store-missing-after-failed-swap", "shutdown-race", "wrong-type-value", "altered-value"}
+var c09faults = []string{"db-closed", "read-error", "corrupt-block", "undecodable-value", "truncated-value", "store-missing-after-failed-swap", "shutdown-race", "wrong-type-value", "altered-value", "empty-value"}
 
-const c09cells = 9 * 2 * 2 * 3
+const c09cells = 10 * 2 * 2 * 3
 
 var c09levels = []string{"store", "repository", "validator"}
 
@@ -781,7 +781,7 @@ func runC09(h *Harness) {
 // c09affects: does the fault make the status of this certificate undeterminable?
 func c09affects(fault string, listed bool) bool {
 	switch fault {
-	case "undecodable-value", "truncated-value", "wrong-type-value":
+	case "undecodable-value", "truncated-value", "wrong-type-value", "empty-value":
 		return true // the record under the certificate's own key is damaged (for an unlisted one a damaged record is planted)
 	}
 	return true
@@ -851,6 +851,8 @@ func c09injectStore(h *Harness, s crlstore.CRLStore, f crlstore.Factory, backend
 			v = []byte{0x30, 0x20, 0x02, 0x01}
 		}
 		put(v[:len(v)/2])
+	case "empty-value":
+		put([]byte{}) // the record exists but its value was truncated to nothing
 	case "wrong-type-value":
 		put([]byte{0x04, 0x03, 'a', 'b', 'c'}) // a well-formed OCTET STRING where a SEQUENCE is expected
 	case "altered-value":
